@@ -144,11 +144,22 @@ func (ev *Ev) ident(name string) *Val {
 		if v, ok := ev.fr.Params[name]; ok {
 			return v
 		}
-		// local cells by source name (latest declared wins when shadowed: prefer the one with a value in the state)
+		// local cells by source name (latest declared wins when shadowed: prefer the one with a value in the state);
+		// "x#n" selects the n-th variable named x in source order
 		var found *Val
+		want := 0
+		if i := strings.Index(name, "#"); i > 0 {
+			fmt.Sscanf(name[i+1:], "%d", &want)
+			name = name[:i]
+		}
+		seen := 0
 		for _, b := range ev.fr.Fn.Blocks {
 			for _, ins := range b.Instrs {
 				if a, ok := ins.(*ssa.Alloc); ok && a.Comment == name {
+					seen++
+					if want != 0 && seen != want {
+						continue
+					}
 					if !a.Heap {
 						if v, ok := ev.st.Cells[a]; ok {
 							found = v
@@ -319,7 +330,7 @@ func (ev *Ev) eqSpec(a, b *Val) *Term {
 	}
 	if a.K != b.K {
 		if a.X != nil && b.X != nil && a.X.S == b.X.S && (a.K == KArr || a.K == KMath) && (b.K == KArr || b.K == KMath) {
-			return Eq(a.X, b.X)
+			return eqArr(a, b)
 		}
 		specFail("== on different kinds (%v vs %v)", a.T, b.T)
 	}
@@ -495,6 +506,9 @@ func (ev *Ev) index(e *SExpr) *Val {
 		if base.X.S.Elem == SStr {
 			return &Val{K: KStr, T: types.Typ[types.String], X: x}
 		}
+		if _, isArr := under(base.T).(*types.Array); isArr {
+			elemRangeFact(x, et)
+		}
 		return &Val{K: kindOf(et), T: et, X: x}
 	case KSlice:
 		i := ev.intTerm(e.Args[1])
@@ -571,7 +585,7 @@ func (ev *Ev) quant(e *SExpr) *Val {
 			case KPtr:
 				b := BoundVar(v.Name, SInt)
 				bvs = append(bvs, b)
-				guards = append(guards, Le(Num(0), b))
+				guards = append(guards, Le(Num(0), b), Lt(b, ev.st.Alloc)) // allocated objects only
 				env[v.Name] = mkPtr(t, b)
 			case KArr:
 				b := BoundVar(v.Name, sortOf(t))
@@ -669,6 +683,14 @@ func (ev *Ev) call(e *SExpr) *Val {
 	name := ""
 	if fn.Kind == "id" {
 		name = fn.Name
+	}
+	// package-qualified spec function: pkg.specfn(...)
+	if fn.Kind == "sel" && fn.Args[0].Kind == "id" {
+		if _, ok := ev.c.S.SpecFns[fn.Name]; ok {
+			if _, bound := ev.lookupLocal(fn.Args[0].Name); !bound {
+				name = fn.Name
+			}
+		}
 	}
 	switch name {
 	case "old":
@@ -774,6 +796,48 @@ func (ev *Ev) call(e *SExpr) *Val {
 	case "int":
 		v := ev.eval(args[0])
 		return mathVal(v.X)
+	case "ptr":
+		if args[0].Kind != "str" {
+			specFail("ptr(\"*T\", id)")
+		}
+		t := ev.c.resolveType(args[0].Name, ev.pkg)
+		if t == nil {
+			specFail("ptr: unknown type %s", args[0].Name)
+		}
+		return mkPtr(t, ev.intTerm(args[1]))
+	case "bytescmp":
+		// lexicographic comparison of two byte strings, same abstraction as the model of bytes.Compare
+		x, y := ev.eval(args[0]), ev.eval(args[1])
+		return mathVal(ev.c.bytesCmp(ev.st, ev.viewOf(x), ev.viewOf(y)))
+	case "bytesval":
+		// abstract value of a byte slice: an uninterpreted function of (content, offset, length)
+		v := ev.eval(args[0])
+		arr, off := ev.byteView(v)
+		var ln *Term
+		switch v.K {
+		case KSlice:
+			ln = v.Len
+		case KArr:
+			ln = Num(under(v.T).(*types.Array).Len())
+		default:
+			specFail("bytesval of non-bytes")
+		}
+		return mathVal(App("bytesval", SInt, arr, off, ln))
+	case "iface":
+		if args[0].Kind != "str" {
+			specFail("iface(\"T\", id)")
+		}
+		t := ev.c.resolveType(args[0].Name, ev.pkg)
+		if t == nil {
+			specFail("iface: unknown type %s", args[0].Name)
+		}
+		return &Val{K: KIface, T: t, X: ev.intTerm(args[1])}
+	case "deref":
+		v := ev.eval(args[0])
+		if v.K != KPtr {
+			specFail("deref of non-pointer")
+		}
+		return ev.fr.load(ev.st, v, under(v.T).(*types.Pointer).Elem())
 	}
 	// spec functions
 	if sf, ok := ev.c.S.SpecFns[name]; ok {
@@ -980,6 +1044,48 @@ func (ev *Ev) applyIfaceMethod(recv *Val, name string, args []*SExpr, e *SExpr) 
 	}
 	specFail("no method %s", name)
 	return nil
+}
+
+type bview struct{ arr, off, ln *Term }
+
+func (ev *Ev) viewOf(v *Val) bview {
+	arr, off := ev.byteView(v)
+	switch v.K {
+	case KSlice:
+		return bview{arr, off, v.Len}
+	case KArr:
+		return bview{arr, off, Num(under(v.T).(*types.Array).Len())}
+	}
+	specFail("byte view of %v", v.T)
+	return bview{}
+}
+
+// bytesCmp is the shared model of bytes.Compare: an uninterpreted three-valued function on views that is antisymmetric and
+// zero exactly on equal contents (the lexicographic definition itself is not unfolded).
+func (c *Ctx) bytesCmp(st *State, x, y bview) *Term {
+	vx := App("bytesview", SInt, x.arr, x.off, x.ln)
+	vy := App("bytesview", SInt, y.arr, y.off, y.ln)
+	r := App("bytes.cmp", SInt, vx, vy)
+	c.addFact(And(Le(Num(-1), r), Le(r, Num(1))))
+	c.addFact(Eq(App("bytes.cmp", SInt, vy, vx), Neg(r)))
+	c.addFact(Implies(Eq(vx, vy), Eq(r, Num(0))))
+	var same *Term
+	if x.ln.IsConst() && y.ln.IsConst() && x.ln.Val.IsInt64() && x.ln.Val.Int64() <= 64 {
+		if x.ln.Val.Cmp(y.ln.Val) != 0 {
+			same = TFalse
+		} else {
+			var cs []*Term
+			for i := int64(0); i < x.ln.Val.Int64(); i++ {
+				cs = append(cs, Eq(Select(x.arr, Add(x.off, Num(i))), Select(y.arr, Add(y.off, Num(i)))))
+			}
+			same = And(cs...)
+		}
+	} else {
+		q := BoundVar("j", SInt)
+		same = And(Eq(x.ln, y.ln), Forall([]*Term{q}, Implies(And(Le(Num(0), q), Lt(q, x.ln)), Eq(Select(x.arr, Add(x.off, q)), Select(y.arr, Add(y.off, q))))))
+	}
+	c.addFact(Eq(Eq(r, Num(0)), same))
+	return r
 }
 
 // byteView returns (content array, offset) for a [N]byte value or a []byte slice.
